@@ -1,5 +1,6 @@
 pub mod c02;
 pub mod c05;
+pub mod c08;
 pub mod hchecks;
 pub mod hrun;
 pub mod c09;
